@@ -68,6 +68,12 @@ func main() {
 		}
 	}
 	if r.Replay != "" {
+		var cc ccase
+		r.LoadReplay(&cc)
+		if cc.Side != "" {
+			replayCaller(r, cc)
+			r.Finish()
+		}
 		var t triple
 		r.LoadReplay(&t)
 		check(t)
@@ -90,9 +96,11 @@ func main() {
 			}
 		}
 	}
-	r.Rule(fmt.Sprintf("all (part,total,nodes) with total 1..%d, part<total, nodes 0..%d, plus every early-stop prefix; non-trivial = distinct non-empty node sequences", maxTotal, maxNodes))
+	callersRule := callers(r)
+	r.Rule(fmt.Sprintf("all (part,total,nodes) with total 1..%d, part<total, nodes 0..%d, plus every early-stop prefix; non-trivial = distinct non-empty node sequences. %s; non-trivial there = distinct (side, rule, nodes, part, observed orders)", maxTotal, maxNodes, callersRule))
 	r.Exhaustive(true)
-	r.Assume("only the stated finite ranges are decided; the general (all n) proof asked for in the quantifier is outside bounded enumeration")
+	r.Assume("callers part: the policer is driven with one lost part, all surviving parts healthy on the first node asked, and every candidate refusing the recreated part; the PUT side PUTs a client-sealed part with every node refusing; node answers are deterministic",
+		"only the stated finite ranges are decided; the general (all n) proof asked for in the quantifier is outside bounded enumeration")
 	r.Finish()
 }
 
